@@ -50,9 +50,10 @@ def dense_design(basis_sets, orders, disps):
 
 
 def solver_cells(quick):
-    cells = [("mono_P", (1, 1, 1)), ("tri2_Pm1", (1, 1, 1)), ("tri1", (2, 1, 1)), ("hcp", (1, 1, 1)), ("tri2_P1", (1, 1, 1))]
+    # tri1 3x1x1: a lattice translation of order 3 (T != T^-1), small enough for order 4
+    cells = [("mono_P", (1, 1, 1)), ("tri2_Pm1", (1, 1, 1)), ("tri1", (2, 1, 1)), ("hcp", (1, 1, 1)), ("tri2_P1", (1, 1, 1)), ("tri1", (3, 1, 1))]
     if not quick:
-        cells += [("ortho_C", (1, 1, 1)), ("mono_P", (2, 1, 1)), ("tri1", (2, 2, 1)), ("tri1", (3, 1, 1)), ("rhombo2", (1, 1, 1)), ("sheared", (1, 1, 1)), ("mono_C", (1, 1, 1))]
+        cells += [("ortho_C", (1, 1, 1)), ("mono_P", (2, 1, 1)), ("tri1", (2, 2, 1)), ("rhombo2", (1, 1, 1)), ("sheared", (1, 1, 1)), ("mono_C", (1, 1, 1))]
     return cells
 
 
